@@ -1,8 +1,8 @@
 (* C14 - re-running with nothing changed rewrites nothing; --force always regenerates.
    Only statements, [exact], Examples and [Print Assumptions] live here. *)
-From Coq Require Import String List Arith Bool.
+From Coq Require Import String List Arith Bool Permutation.
 Require Import TT.Model.Str TT.Model.C08Fingerprint TT.Model.C08Run.
-Require Import TT.Proofs.C08RunProofs TT.Proofs.C08FpProofs TT.Proofs.C08Examples.
+Require Import TT.Proofs.C08RunProofs TT.Proofs.C08FpProofs TT.Proofs.C08Examples TT.Proofs.SortInvSpike.
 Import ListNotations.
 
 Notation up_to_date_c := (up_to_date project config sched fname tree tree files).
@@ -56,6 +56,12 @@ Theorem C14_flag_prevails : forall c : config,
   effective_force config g_force true c = true /\ effective_force config g_force false c = g_force c.
 Proof. intros c. split; reflexivity. Qed.
 
+(* the repair: hashing the commands sorted by (file, name) makes the command part of the fingerprint
+   independent of the discovery order (any two enumerations of the same commands, unique (file, name)) *)
+Theorem C14_repair_sorted_commands_order_independent : forall a a' : analysis,
+  NoDup (map cmd_key (a_cmds a)) -> Permutation (a_cmds a) (a_cmds a') -> fp_cmds_sorted a = fp_cmds_sorted a'.
+Proof. exact fp_cmds_sorted_order_independent. Qed.
+
 Example C14_ex_premises :
   kf_C14_order w01 w01 p2 c0 = false /\ fst (run_c false w01 false None (init_state p2 c0)) = Success /\
   has_commands p2 = true.
@@ -67,3 +73,4 @@ Print Assumptions C14_refuted_mapping_order.
 Print Assumptions C14_single_file_outside_class.
 Print Assumptions C14_force.
 Print Assumptions C14_flag_prevails.
+Print Assumptions C14_repair_sorted_commands_order_independent.
